@@ -232,6 +232,23 @@ func runC15(c *Ctx) {
 			items = append(items, item{cfgs[(i+k)%len(cfgs)], b.String(), nil})
 		}
 	}
+	// headings whose texts differ only in separators and punctuation at their edges (what an id
+	// algorithm trims or maps must not make two ids equal), all variants of a base in one document
+	for bi, base := range []string{"a", "FAQ", "Release notes", "a-1", "x y"} {
+		edges := []string{"", "_", " -", "-", "--", "!", " \u2728", ".", " _ ", "-1-", " 1"}
+		var b strings.Builder
+		for i, e := range edges {
+			if i%2 == 0 {
+				b.WriteString("## " + base + e + "\n\n")
+			} else {
+				b.WriteString(strings.TrimSpace(e+base) + "\n---\n\n## " + base + e + " #\n\n")
+			}
+		}
+		b.WriteString("# " + base + "\n")
+		for k := 0; k < len(cfgs); k++ {
+			items = append(items, item{cfgs[(bi+k)%len(cfgs)], b.String(), nil})
+		}
+	}
 	// ---- C2M workload
 	g := newDocGen(c.Rand("docs"))
 	for i := 0; i < c.Pick(6000, 100000); i++ {
